@@ -144,7 +144,7 @@ def run_cmd(cmd, cwd, timeout, logfile, env=None, rss_gb=None):
 
 
 CHECK_RE = re.compile(
-    r"^Check (\d+): (\S+)\n\t - Status: (\S+)\n\t - Description: \"(.*)\"\n(?:\t - Location: (.*)\n)?",
+    r"^Check (\d+): (.+)\n\t - Status: (\S+)\n\t - Description: \"(.*)\"\n(?:\t - Location: (.*)\n)?",
     re.M,
 )
 
@@ -195,11 +195,14 @@ def parse_kani_log(text):
     return res
 
 
+CURRENT_TIER = ["quick"]
+
+
 def kani_cmd(group, hname, hspec, tgt, extra=()):
     full = hspec.get("prefix", group.get("prefix", "")) + hname
     cmd = ["cargo", "kani", "-p", group["package"], "--harness", full, "--exact", "--target-dir", tgt]
     cmd += ["--no-assertion-reach-checks"]
-    flags = list(group.get("flags", [])) + list(hspec.get("flags", []))
+    flags = list(group.get("flags", [])) + list(group.get("flags_tier", {}).get(CURRENT_TIER[0], [])) + list(hspec.get("flags", []))
     cmd += flags
     cmd += list(extra)
     return cmd
@@ -476,6 +479,7 @@ def run_check(pid, tier, keep=False, only=None):
     from registry import PROPERTIES
 
     prop = PROPERTIES[pid]
+    CURRENT_TIER[0] = tier
     seed = int(os.environ.get("VERIF_SEED", "0") or 0)
     t0 = time.time()
     known = load_known()
